@@ -130,18 +130,24 @@ def _child_body(entry, ddir, kill_at, logfd, resfd):
             os._exit(9)
 
     def fsop(label, fn, *a, **kw):
+        if st.get("busy"):                 # an intercepted call made from inside an intercepted call
+            return fn(*a, **kw)
         st["op"] += 1
         point("before", label)
+        st["busy"] = True
         try:
             r = fn(*a, **kw)
         except BaseException:
+            st["busy"] = False
             point("after", label + "!")
             raise
+        st["busy"] = False
         point("after", label)
         return r
 
     def in_dir(p):
         try:
+            p = os.fspath(p)
             return os.path.dirname(os.path.abspath(p)) == os.path.abspath(ddir)
         except Exception:
             return False
@@ -168,41 +174,43 @@ def _child_body(entry, ddir, kill_at, logfd, resfd):
             return fsop("rename", o_rename, a, b, *r, **kw)
         return o_rename(a, b, *r, **kw)
 
-    def copy(a, b, *r, **kw):
-        """shutil.copy in the three steps of the model (DbFiles.v: LCopyCreate, LCopyPartial,
-        LCopyDone), each an interception point pair: what copyfile does -- open the source, create
-        or truncate the destination, write, close, copymode -- with the process able to die after
-        the truncation and after part of the bytes"""
-        if not (in_dir(a) or in_dir(b)):
-            return o_copy(a, b, *r, **kw)
-        m = re.search(r"-backup-v(-?\d+)$", str(b))
-        v = m.group(1) if m else "?"
-        dst = os.path.join(b, os.path.basename(a)) if os.path.isdir(b) else b
-        box = {}
+    def make_copy(orig):
+        def copy(a, b, *r, **kw):
+            """shutil.copy in the three steps of the model (DbFiles.v: LCopyCreate, LCopyPartial,
+            LCopyDone), each an interception point pair: what copyfile does -- open the source, create
+            or truncate the destination, write, close, copymode -- with the process able to die after
+            the truncation and after part of the bytes"""
+            if st.get("busy") or not (in_dir(a) or in_dir(b)):
+                return orig(a, b, *r, **kw)
+            m = re.search(r"-backup-v(-?\d+)$", str(b))
+            v = m.group(1) if m else "?"
+            dst = os.path.join(b, os.path.basename(a)) if os.path.isdir(b) else b
+            box = {}
 
-        def create():
-            with open(a, "rb") as f:              # no source: OSError, nothing is created
-                box["data"] = f.read()
-            if o_exists(dst) and os.path.samefile(a, dst):
-                raise shutil.SameFileError("%r and %r are the same file" % (a, dst))
-            fd = os.open(dst, os.O_WRONLY | os.O_CREAT | os.O_TRUNC, 0o666)
-            os.fsync(fd)
-            o_close(fd)
+            def create():
+                with open(a, "rb") as f:              # no source: OSError, nothing is created
+                    box["data"] = f.read()
+                if o_exists(dst) and os.path.samefile(a, dst):
+                    raise shutil.SameFileError("%r and %r are the same file" % (a, dst))
+                fd = o_osopen(dst, os.O_WRONLY | os.O_CREAT | os.O_TRUNC, 0o666)
+                os.fsync(fd)
+                o_close(fd)
 
-        def partial():
-            data = box["data"]
-            with open(dst, "r+b") as f:
-                f.write(data[:partial_len(len(data))])
-                f.flush()
-                os.fsync(f.fileno())
+            def partial():
+                data = box["data"]
+                with open(dst, "r+b") as f:
+                    f.write(data[:partial_len(len(data))])
+                    f.flush()
+                    os.fsync(f.fileno())
 
-        fsop("copy-create:" + v, create)
-        fsop("copy-partial:" + v, partial)
-        return fsop("copy:" + v, o_copy, a, b, *r, **kw)     # the real shutil.copy: all bytes + mode bits
+            fsop("copy-create:" + v, create)
+            fsop("copy-partial:" + v, partial)
+            return fsop("copy:" + v, orig, a, b, *r, **kw)     # the real shutil.copy: all bytes + mode bits
+        return copy
 
     def exists(p):
         try:
-            mine = os.path.abspath(p) == main
+            mine = os.path.abspath(os.fspath(p)) == main
         except Exception:
             mine = False
         if mine:
@@ -217,7 +225,51 @@ def _child_body(entry, ddir, kill_at, logfd, resfd):
         st["op"] += 1
         point("before", sql_label(s))
 
+    # the same operations reached through other doors of the standard library (pathlib, os.replace, copy2 ...):
+    # an API migration must not take the crash points away
+    import pathlib
+    o_replace, o_pexists, o_pisfile, o_touch, o_unlink, o_remove, o_osopen = \
+        os.replace, pathlib.Path.exists, pathlib.Path.is_file, pathlib.Path.touch, os.unlink, os.remove, os.open
+    o_copy2, o_copyfile = shutil.copy2, shutil.copyfile
+
+    def replace(a, b, *r, **kw):
+        if in_dir(a) or in_dir(b):
+            return fsop("rename", o_replace, a, b, *r, **kw)
+        return o_replace(a, b, *r, **kw)
+
+    def pexists(self, *a, **kw):
+        try:
+            mine = os.path.abspath(os.fspath(self)) == main
+        except Exception:
+            mine = False
+        return fsop("exists", o_pexists, self, *a, **kw) if mine else o_pexists(self, *a, **kw)
+
+    def pisfile(self, *a, **kw):
+        try:
+            mine = os.path.abspath(os.fspath(self)) == main
+        except Exception:
+            mine = False
+        return fsop("exists", o_pisfile, self, *a, **kw) if mine else o_pisfile(self, *a, **kw)
+
+    def touch(self, *a, **kw):
+        return fsop("touch", o_touch, self, *a, **kw) if in_dir(self) else o_touch(self, *a, **kw)
+
+    def unlink(p, *a, **kw):
+        return fsop("unlink", o_unlink, p, *a, **kw) if in_dir(p) else o_unlink(p, *a, **kw)
+
+    def remove(p, *a, **kw):
+        return fsop("unlink", o_remove, p, *a, **kw) if in_dir(p) else o_remove(p, *a, **kw)
+
+    def osopen(p, flags, *a, **kw):
+        if (flags & os.O_CREAT) and in_dir(p):
+            return fsop("os_open", o_osopen, p, flags, *a, **kw)
+        return o_osopen(p, flags, *a, **kw)
+
     def connect(p, *a, **kw):
+        if isinstance(p, os.PathLike):
+            p = os.fspath(p)
+        if isinstance(p, bytes):
+            p = os.fsdecode(p)
         if isinstance(p, str) and p != ":memory:" and in_dir(p):
             kw.setdefault("factory", TracedConn)
             db = fsop("connect", o_connect, p, *a, **kw)
@@ -225,8 +277,11 @@ def _child_body(entry, ddir, kill_at, logfd, resfd):
             return db
         return o_connect(p, *a, **kw)
 
-    tempfile.mkstemp, os.close, os.rename, shutil.copy = mkstemp, close, rename, copy
+    tempfile.mkstemp, os.close, os.rename, shutil.copy = mkstemp, close, rename, make_copy(o_copy)
     sqlite3.connect, os.path.exists = connect, exists
+    os.replace, pathlib.Path.exists, pathlib.Path.is_file, pathlib.Path.touch = replace, pexists, pisfile, touch
+    os.unlink, os.remove, os.open = unlink, remove, osopen
+    shutil.copy2, shutil.copyfile = make_copy(o_copy2), make_copy(o_copyfile)
     fn = {"get_channel": D.create_or_upgrade_channel_db, "get_usage": D.create_or_upgrade_usage_db,
           "create_channel": D.create_channel_db, "create_usage": D.create_usage_db,
           "open_existing": D.open_existing_db}[entry]
@@ -245,6 +300,9 @@ def _child_body(entry, ddir, kill_at, logfd, resfd):
     # past the last crash point: undo the patches, report what the caller got
     tempfile.mkstemp, os.close, os.rename, shutil.copy = o_mkstemp, o_close, o_rename, o_copy
     sqlite3.connect, os.path.exists = o_connect, o_exists
+    os.replace, pathlib.Path.exists, pathlib.Path.is_file, pathlib.Path.touch = o_replace, o_pexists, o_pisfile, o_touch
+    os.unlink, os.remove, os.open = o_unlink, o_remove, o_osopen
+    shutil.copy2, shutil.copyfile = o_copy2, o_copyfile
     if db is not None:
         try:
             db.set_trace_callback(None)
